@@ -112,7 +112,7 @@ def shape_of(program: Program, c: ClassInfo):
     return "atom", sk
 
 
-def paths(v, limit: int = 64):
+def paths(v, limit: int = 64, opaque_leaf: bool = False):
     """flat part sequences of every alternative path of a skeleton (bounded)"""
     from ..symex import Rep, JoinP, One, RepI, CondI, Opaque
     def rec(x):
@@ -131,6 +131,8 @@ def paths(v, limit: int = 64):
         if isinstance(x, (Lit, Hole, SlotP)):
             return [[x]]
         if isinstance(x, Opaque):
+            if opaque_leaf:
+                return [[x]]
             acc = [[]]
             for i in x.inner:
                 acc = [a + b for a in acc for b in rec(i)][:limit]
